@@ -2,7 +2,7 @@
    from the case's arguments, the canonical observation the Rust harness
    printed for the implementation. Everything is numbers: arguments are lists
    of integers, observations are lists of integers. Definitions only. *)
-Require Import BV.Model.Base BV.Model.SrcB BV.Model.Length.
+Require Import BV.Model.Base BV.Model.SrcB BV.Model.Length BV.Model.Tag.
 Open Scope Z_scope.
 
 Definition zs_to_ns (l : list Z) : list N := map Z.to_N l.
@@ -39,8 +39,49 @@ Definition s_c13_read (args : list (list Z)) : list Z :=
   | _ => [0; 0; 0]
   end.
 
+(* ---- C12 ---- *)
+Definition class_idx (t : tag) : N := (tag_class t / 64)%N.
+Definition consumed (d : list N) (s : src) : Z := Z.of_N (len d - len (rem s)).
+
+Definition s_c12_new (args : list (list Z)) : list Z :=
+  let cls := (argn 0 args * 64)%N in
+  let n := argn 1 args in
+  enc_res (fun t =>
+      enc_bytes (tag_write false t) ++ enc_bytes (tag_write true t) ++
+      enc_n (tag_encoded_len t) ++ enc_n (tag_number t) ++
+      enc_bool (class_idx t =? 0)%N ++ enc_bool (class_idx t =? 1)%N ++
+      enc_bool (class_idx t =? 2)%N ++ enc_bool (class_idx t =? 3)%N)
+    (tag_new cls n).
+
+Definition s_c12_read (args : list (list Z)) : list Z :=
+  let d := argb 0 args in
+  let '(r, s') := tag_take_from (pure_src d None) in
+  let '(ro, so) := tag_take_opt_from (pure_src d None) in
+  enc_res (fun tc : tag * bool => let '(t, c) := tc in
+      enc_bytes (tag_write c t) ++ enc_bool c ++ enc_n (tag_number t) ++
+      enc_n (class_idx t) ++
+      enc_bool (match tag_new (tag_class t) (tag_number t) with
+                | Ok t' => tag_eqb t t' | _ => false end) ++
+      [consumed d s']) r
+  ++ enc_res (fun o : option (tag * bool) =>
+                match o with None => [0] | Some _ => [1] end) ro.
+
+Definition s_c12_takeif (args : list (list Z)) : list Z :=
+  let cls := (argn 0 args * 64)%N in
+  let n := argn 1 args in
+  let d := argb 2 args in
+  match tag_new cls n with
+  | Ok e =>
+    let '(r, s') := tag_take_from_if e (pure_src d None) in
+    enc_res (enc_opt enc_bool) r ++ [consumed d s']
+  | _ => [-1]
+  end.
+
 Definition run_stream (sid : N) (args : list (list Z)) : list Z :=
   match sid with
+  | 1201%N => s_c12_new args
+  | 1202%N => s_c12_read args
+  | 1203%N => s_c12_takeif args
   | 1301%N => s_c13_write args
   | 1302%N => s_c13_read args
   | _ => [-999]
